@@ -387,4 +387,107 @@ theorem build_exact_additional_refuted : ¬ BuildExactAdditionalStatement := by
     rw [e1] at e2
     cases e2
 
+/-! ### supplied types through the extension pass
+
+`extend_schema` applies the extension blocks of the document to the supplied types that are in the schema
+("Extension will be applied to these types").  `mergeLiveX` is `mergeLive` with the members built as the extension pass
+builds them (defaults evaluated in the extended view `eX`); `extend_supplied_exact`: when the blocks are of the type's
+kind and repeat no member name, `_extend_<kind>_type` returns exactly the supplied type followed by the members of its
+blocks in document order — its own members untouched (internal enum values, resolvers of the description…) —, and
+`reDefault` keeps it (a supplied type has no SDL literals to evaluate again). -/
+
+/-- a supplied type with the members its extension blocks declare, built as the extension pass builds them -/
+def mergeLiveX (eB eX : Env) (hide : Option String) (exts : List TypeDef) (t : TypeD) : R TypeD :=
+  let mine := exts.filter (·.name == t.name)
+  match t.kind with
+  | .scalar => pure t
+  | .object => do
+    let fs ← (mine.flatMap (·.fields)).mapM (buildFieldX eB eX hide)
+    checkNames eB (mine.flatMap (·.interfaces))
+    pure { t with fields := t.fields ++ fs, interfaces := t.interfaces ++ mine.flatMap (·.interfaces) }
+  | .interface => do
+    let fs ← (mine.flatMap (·.fields)).mapM (buildFieldX eB eX hide)
+    pure { t with fields := t.fields ++ fs }
+  | .union => do
+    checkNames eB (mine.flatMap (·.members))
+    pure { t with members := t.members ++ mine.flatMap (·.members) }
+  | .enum => do
+    let vs ← (mine.flatMap (·.values)).mapM buildEnumValue
+    pure { t with values := t.values ++ vs }
+  | .input => do
+    let fs ← (mine.flatMap (·.inputFields)).mapM (buildArgumentX eB eX hide)
+    pure { t with inputFields := t.inputFields ++ fs }
+
+/-- member names are not repeated -/
+def MembersNodup (r : TypeD) : Prop :=
+  (r.fields.map (·.name)).Nodup ∧ (r.inputFields.map (·.name)).Nodup ∧ (r.values.map (·.name)).Nodup ∧ r.members.Nodup ∧ r.interfaces.Nodup
+
+/-- **extension blocks are applied to a supplied type exactly** (every kind) -/
+theorem extend_supplied_exact (eB eX : Env) (hide : Option String) (exts : List TypeDef) (t r : TypeD)
+    (hkinds : ∀ e ∈ exts, e.name = t.name → e.kind = t.kind)
+    (hm : mergeLiveX eB eX hide exts t = .ok r) (hn : MembersNodup r) :
+    extendTypeX eB eX hide exts t = .ok r := by
+  obtain ⟨n1, n2, n3, n4, n5⟩ := hn
+  unfold mergeLiveX at hm
+  simp only [] at hm
+  split at hm
+  · -- scalar
+    rename_i hk
+    simp only [hk] at hkinds
+    cases hm
+    exact extend_scalar_exact eB eX hide exts t hk hkinds
+  · -- object
+    rename_i hk
+    simp only [hk] at hkinds
+    obtain ⟨fs, hfs, h1⟩ := bind_ok _ _ _ hm
+    obtain ⟨_, hcn, h2⟩ := bind_ok _ _ _ h1
+    cases h2
+    obtain ⟨hb, hall⟩ := flatMap_mapM_inv (buildFieldX eB eX hide) (fun (e : TypeDef) => e.fields) _ fs hfs
+    subst hall
+    exact extend_object_exact eB eX hide exts t hk hkinds _ hb n1 (checkNames_flatMap_inv eB (fun (e : TypeDef) => e.interfaces) _ hcn) n5
+  · -- interface
+    rename_i hk
+    simp only [hk] at hkinds
+    obtain ⟨fs, hfs, h1⟩ := bind_ok _ _ _ hm
+    cases h1
+    obtain ⟨hb, hall⟩ := flatMap_mapM_inv (buildFieldX eB eX hide) (fun (e : TypeDef) => e.fields) _ fs hfs
+    subst hall
+    exact extend_interface_exact eB eX hide exts t hk hkinds _ hb n1
+  · -- union
+    rename_i hk
+    simp only [hk] at hkinds
+    obtain ⟨_, hcn, h2⟩ := bind_ok _ _ _ hm
+    cases h2
+    exact extend_union_exact eB eX hide exts t hk hkinds (checkNames_flatMap_inv eB (fun (e : TypeDef) => e.members) _ hcn) n4
+  · -- enum
+    rename_i hk
+    simp only [hk] at hkinds
+    obtain ⟨vs, hvs, h1⟩ := bind_ok _ _ _ hm
+    cases h1
+    obtain ⟨hb, hall⟩ := flatMap_mapM_inv buildEnumValue (fun (e : TypeDef) => e.values) _ vs hvs
+    subst hall
+    exact extend_enum_exact eB eX hide exts t hk hkinds _ hb n3
+  · -- input
+    rename_i hk
+    simp only [hk] at hkinds
+    obtain ⟨fs, hfs, h1⟩ := bind_ok _ _ _ hm
+    cases h1
+    obtain ⟨hb, hall⟩ := flatMap_mapM_inv (buildArgumentX eB eX hide) (fun (e : TypeDef) => e.inputFields) _ fs hfs
+    subst hall
+    exact extend_input_exact eB eX hide exts t hk hkinds _ hb n2
+
+/-- … and the second step of the extension pass keeps a supplied type as it is -/
+theorem reDefault_supplied (eB eX : Env) (hide : Option String) (exts : List TypeDef) (r : TypeD)
+    (hs : (eB.findAdditional r.name).isSome) : reDefault eB eX hide exts r = .ok r := by
+  unfold reDefault
+  cases h : eB.findAdditional r.name with
+  | none => rw [h] at hs; cases hs
+  | some _ => rfl
+
+/-- non-vacuity: `extend enum E { B }  extend enum E { C }` on the supplied `E { A = 1 }` -/
+example : (match extendTypeX (Env.of [] [supE]) ((Env.of [] [supE]).extendedA []) none
+      [{ kind := .enum, name := "E", values := [{ name := "B" }] }, { kind := .enum, name := "E", values := [{ name := "C" }] }] supE with
+    | .ok r => r.values.map (·.name) == ["A", "B", "C"] && r.desc == some "supplied"
+    | .error _ => false) = true := by decide
+
 end PyGql.Props.C11
